@@ -46,14 +46,20 @@ const (
 	c02Nil
 	c02Recv
 	c02OptBool // result of conflictingVersion
+	c02RawDep  // an entry of a dependency list / the world, standing for the cdep it was cooked into
+	c02ListDep
+	c02Dep  // the operator of a constraint (Z)
+	c02Mver // a parsed version
 )
 
 type c02Val struct {
 	k c02Kind
 	t string
+	parse string // for a version string: the term of its parse (option mver)
 }
 
 type c02Tr struct {
+	setAdd  bool // disqualify / dq[x] = ... translate to dq_add (no membership test stands before them)
 	fn      string
 	env     map[string]c02Val
 	ret     string // "bool" | "error" | "none"
@@ -77,53 +83,55 @@ func (t *c02Tr) field(x c02Val, sel string, n ast.Node) c02Val {
 	case c02Constraint:
 		switch sel {
 		case "Name":
-			return c02Val{c02Str, "(c_name " + x.t + ")"}
+			return c02Val{k: c02Str, t: "(c_name " + x.t + ")"}
 		case "version":
-			return c02Val{c02Str, "(c_version " + x.t + ")"}
+			return c02Val{k: c02Str, t: "(c_version " + x.t + ")"}
 		}
 	case c02Cstr:
 		switch sel {
 		case "Name":
-			return c02Val{c02Str, "(s_name " + x.t + ")"}
+			return c02Val{k: c02Str, t: "(s_name " + x.t + ")"}
 		case "version":
-			return c02Val{c02Str, "(s_version " + x.t + ")"}
+			return c02Val{k: c02Str, t: "(s_version " + x.t + ")", parse: "(s_req " + x.t + ")"}
+		case "dep":
+			return c02Val{k: c02Dep, t: "(s_dep " + x.t + ")"}
 		}
 	case c02Cpkg:
 		switch sel {
 		case "Name":
-			return c02Val{c02Str, "(k_name " + x.t + ")"}
+			return c02Val{k: c02Str, t: "(k_name " + x.t + ")"}
 		case "Version":
-			return c02Val{c02Str, "(k_version " + x.t + ")"}
+			return c02Val{k: c02Str, t: "(k_version " + x.t + ")"}
 		case "Provides":
-			return c02Val{c02ListCstr, "(k_provs " + x.t + ")"}
+			return c02Val{k: c02ListCstr, t: "(k_provs " + x.t + ")"}
 		case "RepositoryPackage", "Package":
 			return x
 		}
 	case c02Pid:
 		switch sel {
 		case "Name":
-			return c02Val{c02Str, "(k_name (getp R " + x.t + "))"}
+			return c02Val{k: c02Str, t: "(k_name (getp R " + x.t + "))"}
 		case "Version":
-			return c02Val{c02Str, "(k_version (getp R " + x.t + "))"}
+			return c02Val{k: c02Str, t: "(k_version (getp R " + x.t + "))", parse: "(k_ver (getp R " + x.t + "))"}
 		case "Provides":
-			return c02Val{c02ListCstr, "(k_provs (getp R " + x.t + "))"}
+			return c02Val{k: c02ListCstr, t: "(k_provs (getp R " + x.t + "))"}
 		case "RepositoryPackage", "Package":
 			return x
 		}
 	case c02Recv:
 		switch sel {
 		case "selected":
-			return c02Val{c02Sel, "sel"}
+			return c02Val{k: c02Sel, t: "sel"}
 		case "nameMap":
-			return c02Val{c02Names, "(r_names R)"}
+			return c02Val{k: c02Names, t: "(r_names R)"}
 		}
 	}
-	return c02Val{c02Err, t.bad(n, "field "+sel)}
+	return c02Val{k: c02Err, t: t.bad(n, "field "+sel)}
 }
 
 func c02Rank(t string) int {
 	switch {
-	case strings.HasPrefix(t, "\""):
+	case strings.HasPrefix(t, "\""), t == "dep_versionAny":
 		return 2
 	case t == "i":
 		return 1
@@ -151,17 +159,29 @@ func (t *c02Tr) expr(e ast.Expr) c02Val {
 		return t.expr(x.X)
 	case *ast.BasicLit:
 		if s, ok := strLit(x); ok {
-			return c02Val{c02Str, coqStr(s)}
+			return c02Val{k: c02Str, t: coqStr(s)}
 		}
 	case *ast.Ident:
 		switch x.Name {
 		case "nil":
-			return c02Val{c02Nil, ""}
+			return c02Val{k: c02Nil, t: ""}
 		case "true", "false":
-			return c02Val{c02Bool, x.Name}
+			return c02Val{k: c02Bool, t: x.Name}
 		}
 		if v, ok := t.env[x.Name]; ok {
 			return v
+		}
+		if x.Name == "versionAny" {
+			return c02Val{k: c02Dep, t: "dep_versionAny"}
+		}
+	case *ast.SliceExpr:
+		// dep[1:] under strings.HasPrefix(dep, "!")
+		if id, ok := x.X.(*ast.Ident); ok && x.High == nil && x.Max == nil {
+			if lo, isLit := intLit(x.Low); isLit && lo == 1 {
+				if v, bound := t.env["!rest:"+id.Name]; bound {
+					return v
+				}
+			}
 		}
 	case *ast.SelectorExpr:
 		return t.field(t.expr(x.X), x.Sel.Name, e)
@@ -169,7 +189,7 @@ func (t *c02Tr) expr(e ast.Expr) c02Val {
 		if x.Op == token.NOT {
 			v := t.expr(x.X)
 			if v.k == c02Bool {
-				return c02Val{c02Bool, "(negb " + v.t + ")"}
+				return c02Val{k: c02Bool, t: "(negb " + v.t + ")"}
 			}
 		}
 	case *ast.BinaryExpr:
@@ -187,26 +207,31 @@ func (t *c02Tr) expr(e ast.Expr) c02Val {
 				eq = "(String.eqb " + a.t + " " + b.t + ")"
 			case a.k == c02Pid && b.k == c02Pid:
 				eq = "(Nat.eqb " + a.t + " " + b.t + ")"
+			case a.k == c02Dep && b.k == c02Dep:
+				eq = "(Z.eqb " + a.t + " " + b.t + ")"
 			default:
-				return c02Val{c02Err, t.bad(e, "comparison of these operands")}
+				return c02Val{k: c02Err, t: t.bad(e, "comparison of these operands")}
 			}
 			if x.Op == token.NEQ {
 				eq = "(negb " + eq + ")"
 			}
-			return c02Val{c02Bool, eq}
+			return c02Val{k: c02Bool, t: eq}
 		case token.LAND, token.LOR:
 			if a.k == c02Bool && b.k == c02Bool {
 				op := "andb"
 				if x.Op == token.LOR {
 					op = "orb"
 				}
-				return c02Val{c02Bool, "(" + op + " " + a.t + " " + b.t + ")"}
+				return c02Val{k: c02Bool, t: "(" + op + " " + a.t + " " + b.t + ")"}
 			}
 		}
 	case *ast.CallExpr:
 		if c, ok := c02IsCall(e, "cachedResolvePackageNameVersionPin"); ok && len(c.Args) == 1 {
-			if v := t.expr(c.Args[0]); v.k == c02Raw {
-				return c02Val{c02Cstr, v.t}
+			switch v := t.expr(c.Args[0]); v.k {
+			case c02Raw:
+				return c02Val{k: c02Cstr, t: v.t}
+			case c02RawDep:
+				return c02Val{k: c02Cstr, t: "(d_pos " + v.t + ")"}
 			}
 		}
 		if c, ok := c02IsCall(e, "conflictingVersion"); ok && len(c.Args) == 2 {
@@ -215,24 +240,32 @@ func (t *c02Tr) expr(e ast.Expr) c02Val {
 			if a.k == c02Cstr {
 				ct = "(s_c " + a.t + ")"
 			} else if a.k != c02Constraint {
-				return c02Val{c02Err, t.bad(e, "first argument of conflictingVersion")}
+				return c02Val{k: c02Err, t: t.bad(e, "first argument of conflictingVersion")}
 			}
 			kt := b.t
 			if b.k == c02Pid {
 				kt = "(getp R " + b.t + ")"
 			} else if b.k != c02Cpkg {
-				return c02Val{c02Err, t.bad(e, "second argument of conflictingVersion")}
+				return c02Val{k: c02Err, t: t.bad(e, "second argument of conflictingVersion")}
 			}
-			return c02Val{c02OptBool, "(gen_conflicting_version " + ct + " " + kt + ")"}
+			return c02Val{k: c02OptBool, t: "(gen_conflicting_version " + ct + " " + kt + ")"}
+		}
+		if c, ok := c02IsCall(e, "satisfies"); ok && len(c.Args) == 2 {
+			if f, isSel := c.Fun.(*ast.SelectorExpr); isSel {
+				d, a, b := t.expr(f.X), t.expr(c.Args[0]), t.expr(c.Args[1])
+				if d.k == c02Dep && a.k == c02Mver && b.k == c02Mver {
+					return c02Val{k: c02Bool, t: "(satisfies " + d.t + " " + a.t + " " + b.t + ")"}
+				}
+			}
 		}
 		if _, ok := c02IsCall(e, "Errorf"); ok {
-			return c02Val{c02Err, ""}
+			return c02Val{k: c02Err, t: ""}
 		}
 		if _, ok := c02IsCall(e, "New"); ok {
-			return c02Val{c02Err, ""}
+			return c02Val{k: c02Err, t: ""}
 		}
 	}
-	return c02Val{c02Err, t.bad(e, "expression")}
+	return c02Val{k: c02Err, t: t.bad(e, "expression")}
 }
 
 // v, ok := M[k]  /  _, ok := M[k]
@@ -300,7 +333,7 @@ func (t *c02Tr) lookup(n ast.Node, m, key c02Val, v string, some, none func() st
 		if v != "_" {
 			nm = "g_" + v
 		}
-		return "(match alookup " + key.t + " sel with Some " + nm + " => " + t.withVar(v, c02Val{c02Pid, nm}, some) + " | None => " + none() + " end)"
+		return "(match alookup " + key.t + " sel with Some " + nm + " => " + t.withVar(v, c02Val{k: c02Pid, t: nm}, some) + " | None => " + none() + " end)"
 	case c02Names:
 		if key.k != c02Str {
 			return t.bad(n, "key of nameMap")
@@ -309,7 +342,7 @@ func (t *c02Tr) lookup(n ast.Node, m, key c02Val, v string, some, none func() st
 		if v != "_" {
 			nm = "g_" + v
 		}
-		return "(match alookup " + key.t + " (r_names R) with Some " + nm + " => " + t.withVar(v, c02Val{c02ListPid, nm}, some) + " | None => " + none() + " end)"
+		return "(match alookup " + key.t + " (r_names R) with Some " + nm + " => " + t.withVar(v, c02Val{k: c02ListPid, t: nm}, some) + " | None => " + none() + " end)"
 	case c02Dq:
 		if key.k != c02Pid || v != "_" {
 			return t.bad(n, "use of dq")
@@ -344,6 +377,17 @@ func (t *c02Tr) condIf(n ast.Node, cond ast.Expr, then, els func() string) strin
 			a, b = b, a
 		}
 		return "(match " + v.t + " with None => Panic | Some true => " + a + " | Some false => " + b + " end)"
+	}
+	if hp, isHP := c02IsCall(c, "HasPrefix"); isHP && len(hp.Args) == 2 {
+		if id, isId := hp.Args[0].(*ast.Ident); isId {
+			if lit, isLit := strLit(hp.Args[1]); isLit && lit == "!" {
+				if d := t.expr(id); d.k == c02RawDep {
+					nm := "g_rest_" + id.Name
+					th := t.withVar("!rest:"+id.Name, c02Val{k: c02Raw, t: nm}, then)
+					return "(match d_neg " + d.t + " with Some " + nm + " => " + th + " | None => " + els() + " end)"
+				}
+			}
+		}
 	}
 	v := t.expr(cond)
 	if v.k != c02Bool {
@@ -401,7 +445,16 @@ func (t *c02Tr) tr(l []ast.Stmt, k func() string) string {
 		if c, ok := c02IsCall(s.X, "disqualify"); ok && len(c.Args) == 3 && t.state == "dq" {
 			d, x := t.expr(c.Args[0]), t.expr(c.Args[1])
 			if d.k == c02Dq && x.k == c02Pid {
+				if t.setAdd {
+					return "(let dq := dq_add " + x.t + " dq in " + rest() + ")"
+				}
 				return "(let dq := " + x.t + " :: dq in " + rest() + ")"
+			}
+		}
+		if c, ok := c02IsCall(s.X, "disqualifyProviders"); ok && len(c.Args) == 2 && t.state == "dq" {
+			x, d := t.expr(c.Args[0]), t.expr(c.Args[1])
+			if d.k == c02Dq && x.k == c02Raw {
+				return "(let dq := disqualify_providers R " + x.t + " dq in " + rest() + ")"
 			}
 		}
 		return t.bad(s, "statement")
@@ -418,6 +471,11 @@ func (t *c02Tr) tr(l []ast.Stmt, k func() string) string {
 		}
 		// M[k] = v
 		if s.Tok == token.ASSIGN && len(s.Lhs) == 1 && len(s.Rhs) == 1 {
+			if ix, ok := s.Lhs[0].(*ast.IndexExpr); ok && t.state == "dq" && t.setAdd {
+				if m, key := t.expr(ix.X), t.expr(ix.Index); m.k == c02Dq && key.k == c02Pid {
+					return "(let dq := dq_add " + key.t + " dq in " + rest() + ")"
+				}
+			}
 			if ix, ok := s.Lhs[0].(*ast.IndexExpr); ok && t.state == "sel" {
 				m, key, v := t.expr(ix.X), t.expr(ix.Index), t.expr(s.Rhs[0])
 				if m.k == c02Sel && key.k == c02Str && v.k == c02Pid {
@@ -425,6 +483,29 @@ func (t *c02Tr) tr(l []ast.Stmt, k func() string) string {
 				}
 			}
 			return t.bad(s, "assignment")
+		}
+		// v, err := cachedParseVersion(s) followed by if err != nil { ... }
+		if s.Tok == token.DEFINE && len(s.Lhs) == 2 && len(s.Rhs) == 1 && len(l) > 1 {
+			if c, isPV := c02IsCall(s.Rhs[0], "cachedParseVersion"); isPV && len(c.Args) == 1 {
+				vid, ok1 := s.Lhs[0].(*ast.Ident)
+				eid, ok2 := s.Lhs[1].(*ast.Ident)
+				nxt, isIf := l[1].(*ast.IfStmt)
+				arg := t.expr(c.Args[0])
+				if ok1 && ok2 && isIf && nxt.Init == nil && nxt.Else == nil && arg.k == c02Str && arg.parse != "" {
+					if be, isB := nxt.Cond.(*ast.BinaryExpr); isB && be.Op == token.NEQ {
+						x, xok := be.X.(*ast.Ident)
+						y, yok := be.Y.(*ast.Ident)
+						if xok && yok && x.Name == eid.Name && y.Name == "nil" {
+							after := func() string { return t.tr(l[2:], k) }
+							nm := "g_" + vid.Name
+							failed := t.tr(nxt.Body.List, after)
+							good := t.withVar(vid.Name, c02Val{k: c02Mver, t: nm}, after)
+							return "(match " + arg.parse + " with None => " + failed + " | Some " + nm + " => " + good + " end)"
+						}
+					}
+				}
+				return t.bad(s, "use of cachedParseVersion")
+			}
 		}
 		// v, ok := M[k] followed by if !ok { ... } (or if ok { ... })
 		if v, okName, m, key, is := t.commaOk(s); is && len(l) > 1 {
@@ -504,9 +585,11 @@ func (t *c02Tr) tr(l []ast.Stmt, k func() string) string {
 		x := fmt.Sprintf("g_%s%d", vid.Name, n)
 		switch lst.k {
 		case c02ListCstr:
-			elTy, el = "cstr", c02Val{c02Raw, x}
+			elTy, el = "cstr", c02Val{k: c02Raw, t: x}
 		case c02ListPid:
-			elTy, el = "pid", c02Val{c02Pid, x}
+			elTy, el = "pid", c02Val{k: c02Pid, t: x}
+		case c02ListDep:
+			elTy, el = "cdep", c02Val{k: c02RawDep, t: x}
 		default:
 			return t.bad(s, "range over")
 		}
@@ -521,7 +604,7 @@ func (t *c02Tr) tr(l []ast.Stmt, k func() string) string {
 		cont += ")"
 		after := rest()
 		oldC, hadC := t.env["continue"]
-		t.env["continue"] = c02Val{c02Err, cont}
+		t.env["continue"] = c02Val{k: c02Err, t: cont}
 		body := t.withVar(vid.Name, el, func() string { return t.tr(s.Body.List, func() string { return cont }) })
 		if hadC {
 			t.env["continue"] = oldC
@@ -559,7 +642,7 @@ func genC02() {
 			fail("%s: conflictingVersion: expected two parameters", rel)
 		} else {
 			t := &c02Tr{fn: "conflictingVersion", ret: "bool", resTy: "option bool", ok: true,
-				env: map[string]c02Val{recv: {c02Recv, ""}, ps[0]: {c02Constraint, "c"}, ps[1]: {c02Cpkg, "k"}}}
+				env: map[string]c02Val{recv: {k: c02Recv}, ps[0]: {k: c02Constraint, t: "c"}, ps[1]: {k: c02Cpkg, t: "k"}}}
 			body := t.tr(fd.Body.List, func() string { return t.bad(fd, "function may end without return") })
 			emit("gen_conflicting_version", "(c : constraint) (k : cpkg) : option bool", body, rel+" conflictingVersion at "+g.pos(fd)+"; None = panic")
 		}
@@ -571,7 +654,7 @@ func genC02() {
 			fail("%s: pick: expected one parameter", rel)
 		} else {
 			t := &c02Tr{fn: "pick", ret: "error", state: "sel", stateTy: "list (string * pid)", resTy: "res (list (string * pid))", ok: true,
-				env: map[string]c02Val{recv: {c02Recv, ""}, ps[0]: {c02Pid, "i"}}}
+				env: map[string]c02Val{recv: {k: c02Recv}, ps[0]: {k: c02Pid, t: "i"}}}
 			body := t.tr(fd.Body.List, func() string { return t.bad(fd, "function may end without return") })
 			emit("gen_pick", "(R : resolver) (i : pid) (sel : list (string * pid)) : res (list (string * pid))", body, rel+" pick at "+g.pos(fd)+"; p.selected = sel")
 		}
@@ -583,9 +666,22 @@ func genC02() {
 			fail("%s: disqualifyConflicts: expected two parameters", rel)
 		} else {
 			t := &c02Tr{fn: "disqualifyConflicts", ret: "none", state: "dq", stateTy: "list pid", resTy: "res (list pid)", ok: true,
-				env: map[string]c02Val{recv: {c02Recv, ""}, ps[0]: {c02Pid, "i"}, ps[1]: {c02Dq, "dq"}}}
+				env: map[string]c02Val{recv: {k: c02Recv}, ps[0]: {k: c02Pid, t: "i"}, ps[1]: {k: c02Dq, t: "dq"}}}
 			body := t.tr(fd.Body.List, func() string { return "(Ok dq)" })
 			emit("gen_disqualify_conflicts", "(R : resolver) (i : pid) (dq : list pid) : res (list pid)", body, rel+" disqualifyConflicts at "+g.pos(fd)+"; Panic = the panic of conflictingVersion")
+		}
+	}
+	// constrain(constraints []string, dq map[*RepositoryPackage]string) error
+	if fd := findFunc(rel, "PkgResolver", "constrain"); fd != nil && fd.Body != nil {
+		recv, ps := c02Params(fd)
+		if len(ps) != 2 {
+			fail("%s: constrain: expected two parameters", rel)
+		} else {
+			t := &c02Tr{fn: "constrain", ret: "error", state: "dq", stateTy: "list pid", resTy: "res (list pid)", ok: true, setAdd: true,
+				env: map[string]c02Val{recv: {k: c02Recv}, ps[0]: {k: c02ListDep, t: "cs"}, ps[1]: {k: c02Dq, t: "dq"}}}
+			body := t.tr(fd.Body.List, func() string { return t.bad(fd, "function may end without return") })
+			emit("gen_constrain", "(R : resolver) (cs : list cdep) (dq : list pid) : res (list pid)", body,
+				rel+" constrain at "+g.pos(fd)+"; a list entry is the cdep it is cooked into (d_neg = the rest after '!'), cachedParseVersion of a cooked string is its stored parse, disqualifyProviders is the model's")
 		}
 	}
 	// disqualify(dq, pkg, reason) must be the single map assignment the translation of its calls stands for
